@@ -102,6 +102,7 @@ func init() {
 		r.Decides("every descent that can run under delete is followed by an emptiness test and removal of the emptied child; every removal and every other tree write in the retrieveNode family is gated by a write flag; \"*\" is a wildcard only under GetNode's option; reflect.Value.String() is not used to stringify non-string keys.",
 			"frame preservation (leaves outside the path keep their values), idempotence, the exact subtree removed.")
 		ruleDeletePrune(c, r)
+		ruleUnsetKey(c, r)
 		ruleDeleteSites(c, r)
 		ruleWriteGated(c, r)
 		ruleWildcardOpt(c, r)
@@ -209,6 +210,7 @@ func init() {
 		fs := c.entryReach(r, c20Entries...)
 		c.stats["functions_analysed"] = len(fs)
 		encPair = ruleEncPair(c, r)
+		ruleUnsetKey(c, r)
 		ruleAssert(c, r, fs)
 		ruleIfaceEq(c, r, fs)
 		ruleCallArity(c, r, fs)
